@@ -44,6 +44,32 @@ def skeleton(f, fn):
         return out
     return json.dumps(sk(parse_block(f.toks, fn.i_bo, fn.i_bc), True), separators=(',', ':'))
 
+def _nodes(sk, path=()):
+    """flat multiset of skeleton nodes: (kinds on the path to the node, kind)"""
+    out = []
+    for kind, subs, arms in sk:
+        out.append(path + (kind,))
+        for role, sub in subs:
+            out += _nodes(sub, path + (kind, role))
+        for a in arms:
+            out.append(path + (kind, 'arm'))
+            if isinstance(a, list): out += _nodes(a, path + (kind, 'arm'))
+    return out
+
+def small_in_place_edit(pinned_json, current_json):
+    """is `current` the pinned skeleton up to a small in-place edit - at most four nodes removed or added, nothing converted (no control statement replaced by one of
+    another kind at the same place) and no `let` added (a new binding is how refactorings introduce names; changes that break behaviour remove guards, add early exits or
+    arms, or move a statement)? Only then is a failed proof in the function conclusive by itself."""
+    from collections import Counter
+    a, b = Counter(map(tuple, _nodes(json.loads(pinned_json)))), Counter(map(tuple, _nodes(json.loads(current_json))))
+    removed, added = list((a - b).elements()), list((b - a).elements())
+    if len(removed) + len(added) > 4: return False
+    if any(n[-1] == 'let' for n in added): return False
+    ctrl = ('if', 'match', 'loop')
+    rc = set(n[:-1] for n in removed if n[-1] in ctrl); ac = set(n[:-1] for n in added if n[-1] in ctrl)
+    if rc & ac and set(n[-1] for n in removed if n[-1] in ctrl) != set(n[-1] for n in added if n[-1] in ctrl): return False
+    return True
+
 _SK = None
 def load_skeletons():
     global _SK
